@@ -92,6 +92,14 @@ func Harness_C31_failover_and_drop_accounting() {
 	e.pool = &tcpPool{primary: prim, secondary: sec, closed: make(chan struct{})}
 	e.pool.primPtr = &e.pool.primary
 	e.pool.secPtr = &e.pool.secondary
+	if v.NondetBool() {
+		// roles already swapped by an earlier failover: the sender that reports drops upstream is
+		// still the one with an upstream address, i.e. pool.primary
+		e.pool.primPtr, e.pool.secPtr = e.pool.secPtr, e.pool.primPtr
+		prim, sec = sec, prim
+		pf, sf = sf, pf
+	}
+	first := e.pool.primPtr
 	pw, sw := prim.buf.wi, sec.buf.wi
 	pkt := []byte{v.NondetU8(), v.NondetU8(), v.NondetU8()}
 	c0 := pkt[0]
@@ -100,14 +108,14 @@ func Harness_C31_failover_and_drop_accounting() {
 	case !pf:
 		v.Assert("C31.failover.primary_takes_it", err == nil && prim.buf.wi == pw+1 && sec.buf.wi == sw)
 		v.Assert("C31.failover.stored_bytes", len(prim.buf.w[pw]) == 3 && prim.buf.w[pw][0] == c0)
-		v.Assert("C31.failover.roles_unchanged", e.pool.primPtr == &e.pool.primary)
+		v.Assert("C31.failover.roles_unchanged", e.pool.primPtr == first)
 	case !sf:
 		v.Assert("C31.failover.secondary_takes_it", err == nil && sec.buf.wi == sw+1 && prim.buf.wi == pw)
-		v.Assert("C31.failover.roles_swapped", e.pool.primPtr == &e.pool.secondary && e.pool.secPtr == &e.pool.primary)
+		v.Assert("C31.failover.roles_swapped", e.pool.secPtr == first && e.pool.primPtr != first)
 		v.Assert("C31.failover.stuck_primary_asked_to_reconnect", len(prim.reconCh) == 1)
 	default:
 		v.Assert("C31.drop.only_when_both_full", errors.Is(err, errWouldBlock))
-		v.Assert("C31.drop.bytes_reported", e.pool.primary.wouldBlockBytes.Load() == 3)
+		v.Assert("C31.drop.bytes_reported_by_the_sender_that_has_an_upstream", e.pool.primary.wouldBlockBytes.Load() == 3 && e.pool.secondary.wouldBlockBytes.Load() == 0)
 		v.Assert("C31.drop.buffers_untouched", prim.buf.wi == pw && sec.buf.wi == sw)
 	}
 	// the same through the public entry point: counters
